@@ -312,6 +312,40 @@ func c17Amplifiers(format string) []c17Seed {
 				out = append(out, c17Seed{append([]byte{0x91}, tn.b...), own, fmt.Sprintf("nested-refinement-%s-%d", tn.name, n)})
 			}
 		}
+		// every refinement map of up to four entries over a small entry alphabet, repeated and
+		// contradictory keys included (an encoder never writes those; a decoder that tracks the
+		// bounds itself must agree with the builder on which entry wins)
+		{
+			const n = 1 << 22
+			u64 := func(v uint64) []byte {
+				return []byte{0xcf, byte(v >> 56), byte(v >> 48), byte(v >> 40), byte(v >> 32), byte(v >> 24), byte(v >> 16), byte(v >> 8), byte(v)}
+			}
+			entries := [][]byte{
+				{0x01, 0xc2},
+				append([]byte{0x05}, u64(n)...), append([]byte{0x06}, u64(n)...),
+				{0x05, 0x00}, {0x06, 0x00}, {0x05, 0x01}, append([]byte{0x06}, u64(n+1)...),
+			}
+			names := []string{"notnull", "min=n", "max=n", "min=0", "max=0", "min=1", "max=n+1"}
+			own := []*TS{tList(tsStr), tList(tList(tsStr))}
+			var rec func(body []byte, name string, k int)
+			rec = func(body []byte, name string, k int) {
+				if k > 0 {
+					full := append([]byte{0x80 | byte(k)}, body...)
+					ext := append([]byte{0xc7, byte(len(full)), 0x0c}, full...)
+					out = append(out, c17Seed{ext, own, "refinement-map[" + name + "]"})
+					if k >= 3 {
+						out = append(out, c17Seed{append([]byte{0x91}, ext...), own, "nested-refinement-map[" + name + "]"})
+					}
+				}
+				if k == 4 {
+					return
+				}
+				for i, e := range entries {
+					rec(append(append([]byte(nil), body...), e...), name+" "+names[i], k+1)
+				}
+			}
+			rec(nil, "", 0)
+		}
 		out = append(out, c17Seed{append([]byte{0xdb, 0, 1, 0, 0}, []byte(strings.Repeat("a", 65536))...), nil, "long-string"})
 		out = append(out, c17Seed{[]byte{0xcb, 0x7f, 0xf8, 0, 0, 0, 0, 0, 1}, nil, "nan"}, c17Seed{[]byte{0xca, 0x7f, 0xc0, 0, 0}, nil, "nan32"}, c17Seed{[]byte{0x91, 0xcb, 0xff, 0xf8, 0, 0, 0, 0, 0}, nil, "nan-in-array"})
 		out = append(out, c17Seed{[]byte{0x90}, nil, "empty-array"}, c17Seed{[]byte{0x80}, nil, "empty-map"}, c17Seed{[]byte{0xc7, 0x00, 0x0c}, nil, "empty-ext"})
